@@ -1036,8 +1036,12 @@ theorem hCmpCore_sat {need : List Nat} (obj other op : PV) (hn : ∀ o ∈ obj.o
     Sat c need (hCmpCore obj other op) PV.objs := by
   unfold hCmpCore
   refine Sat.bind (Sat.prim hA _ rfl (by mem_tac)) (fun ty => ?_)
-  refine Sat.bind (Sat.accessAttr hA _ _ _ _ (by mem_tac)) (fun f => ?_)
-  exact Sat.prim hA _ rfl (by mem_tac)
+  refine Sat.bind (Sat.prim hA _ rfl (by mem_tac)) (fun own => ?_)
+  refine Sat.ite (fun _ => ?_) (fun _ => ?_)
+  · refine Sat.bind (Sat.accessAttr hA _ _ _ _ (by mem_tac)) (fun f => ?_)
+    exact Sat.prim hA _ rfl (by mem_tac)
+  · refine Sat.bind (Sat.accessAttr hA _ _ _ _ (by mem_tac)) (fun f => ?_)
+    exact Sat.prim hA _ rfl (by mem_tac)
 
 theorem hCmp_sat (as : List PV) : Sat c (PV.objsL as) (hCmp as) PV.objs := by
   unfold hCmp
